@@ -723,7 +723,7 @@ class PeerConnection(DataConnection):
             of data is received
         """
         bytes_received = 0
-        while True:
+        while bytes_received < filesize:
             bytes_to_read = await self.download_rate_limiter.take_tokens()
             data = await self.receive_data(bytes_to_read)
             if data is None:
